@@ -216,7 +216,9 @@ Inductive IOcase :=
 (* tier- and textgrid-level numbers are converted by the reader: they are compared
    through a table token -> canonical form of its value, supplied by the harness *)
 | ParseTextN (includeEmpty : bool) (data : text) (canon : list (text * text)) (out : res rtg)
-| RefRead (tab : numtab) (g : dtg) (data : text).           (* g = prepared data; data = text the implementation wrote *)
+| RefRead (tab : numtab) (g : dtg) (data : text)            (* g = prepared data; data = text the implementation wrote *)
+(* what Textgrid.save wrote (or that it raised) for in-memory data g *)
+| RefSave (long blanks : bool) (mn mx : option Z) (thr : option (Z * Z)) (tab : numtab) (g : dtg) (out : res text).
 
 Fixpoint canon_lookup (tab : list (text * text)) (k : text) : text :=
   match tab with
@@ -236,6 +238,7 @@ Definition IOcorr (c : IOcase) : bool :=
   | ParseTextN ie data tab out =>
       res_eqb rtg_eqb (do g <- parse_text POINT_MARK_UNDOUBLED ie data; Ok (canon_rtg tab g)) out
   | RefRead _ _ _ => true
+  | RefSave lg b mn mx th tab g out => res_eqb text_eqb (save_text lg b mn mx th tab g) out
   end.
 
 Definition C04oracle (c : IOcase) : bool :=
@@ -252,6 +255,16 @@ Definition C02oracle (c : IOcase) : bool :=
       match ref_parse data with
       | Some r => rtg_eqb r (expect_tg tab g)
       | None => false
+      end
+  | RefSave lg b mn mx th tab g out =>
+      match out, prep_tg b mn mx th g with
+      | Ok data, Ok g' =>
+          match ref_parse data with
+          | Some r => rtg_eqb r (expect_tg tab g')
+          | None => false
+          end
+      | Err _, Err _ => true
+      | _, _ => false
       end
   | _ => true
   end.
